@@ -122,6 +122,11 @@ def h_distance(ctx):
         return
     s1, s2 = ctx.it.info["andoyer_s"][-2:]
     ctx.identity("Andoyer's S is the same for (A, B) and (B, A) (so both calls take the same branch)", s1, s2)
+    # Meeus (11.?): S = sin^2 G cos^2 lambda + cos^2 F sin^2 lambda with F, G the half sum / half difference of the latitudes and
+    # lambda half the difference of the longitudes of the TWO points
+    Fm, Gm, Lm = radians_((p1 + p2) / 2), radians_((p1 - p2) / 2), radians_((l1 - l2) / 2)
+    ctx.identity("S == sin^2 G cos^2 lambda + cos^2 F sin^2 lambda (both points' coordinates enter)", s1,
+                 sin_(Gm) * sin_(Gm) * cos_(Lm) * cos_(Lm) + cos_(Fm) * cos_(Fm) * sin_(Lm) * sin_(Lm))
     if isinstance(d12[0], Num) and isinstance(d21[0], Num) and not d12[0].is_concrete() and not d21[0].is_concrete():
         ctx.identity("distance(A, B) == distance(B, A)", d12[0], d21[0])
     elif isinstance(d12[0], Num) and d12[0].is_concrete() and isinstance(d21[0], Num) and d21[0].is_concrete():
